@@ -404,6 +404,9 @@ func genFor(prop, part string, seed uint64) *Scenario {
 	case "C06":
 		return genC06(seed, part)
 	case "C12":
+		if part == "swap" {
+			return genSwap(seed, "C12/swap")
+		}
 		return genC12(seed, part)
 	case "C11":
 		return genC11(seed, part)
@@ -420,6 +423,9 @@ func genFor(prop, part string, seed uint64) *Scenario {
 		}
 		return genC04(seed, part, prop)
 	case "C01":
+		if part == "swap" {
+			return genSwap(seed, "C01/swap")
+		}
 		pf.narrowP, pf.emptyMsgP, pf.builtinP, pf.nilOut = 15, 30, 30, true
 		if part == "err" {
 			sc := genC15(seed, common.NewRng(seed).PickS("filler", "filler", "output"))
@@ -528,6 +534,15 @@ func genFor(prop, part string, seed uint64) *Scenario {
 		pf.endKinds = []string{"natural", "natural", "cancel", "shutdown"}
 		pf.waitEarlyP = 40
 		pf.clientAddP = 30
+		if part == "busy" {
+			// every scenario ends by cancel / Shutdown while workers keep the bars'
+			// goroutines occupied: only the final render can show the aborted state
+			pf.endKinds = []string{"cancel", "shutdown"}
+			pf.onDoneP = 100
+			pf.nBars = []int{1, 2, 3, 5}
+			pf.waitEarlyP = 0
+			pf.clientAddP = 0
+		}
 	case "C13":
 		if part == "lines" {
 			return genC13Lines(seed)
@@ -583,6 +598,12 @@ func genFor(prop, part string, seed uint64) *Scenario {
 			if r.Bool() {
 				sc.RefreshUS = r.Pick(10000, 30000)
 			}
+		}
+		if len(sc.Waiters) > 0 && r.Chance(2, 3) {
+			// ... and the bar's goroutine is held back after every operation it serves:
+			// when it comes back, the cancellation and the final render request are both
+			// waiting for it
+			sc.Policy, sc.Target = "targeted", "bar.op"
 		}
 	}
 	if prop == "C14" && len(sc.Bars) > 0 {
@@ -792,7 +813,11 @@ func runSched(job common.Job, em *emitter) {
 			if sc.OutFailAt > 0 {
 				k = sc.OutFailAt
 			}
-			res.Obs[fmt.Sprintf("site:fault:%s#%d", a.faultSite(), k)]++
+			if k == failLate {
+				res.Obs[fmt.Sprintf("site:fault:%s#first-frame-on-the-way-out", a.faultSite())]++
+			} else {
+				res.Obs[fmt.Sprintf("site:fault:%s#%d", a.faultSite(), k)]++
+			}
 		}
 		for pi := 0; pi < hpCount; pi++ {
 			if n := rr.hookOcc[pi].Load(); n > 0 {
@@ -850,6 +875,63 @@ func genC05Queue(seed uint64) *Scenario {
 		}
 	}
 	ops = append(ops, step(), step())
+	sc.Clients = [][]Op{ops}
+	if sc.Mode == "manual" {
+		sc.FinalRefr = 3
+	}
+	return sc
+}
+
+// genSwap: bars with width-synchronised decorators, one of which leaves the heap
+// (removed on completion, dropped on abort, popped out) while, before the next
+// cycle, a bar WITHOUT synchronised decorators joins: the number of bars is the
+// same as before, the synchronised columns are not.
+func genSwap(seed uint64, fam string) *Scenario {
+	r := common.NewRng(seed)
+	sc := &Scenario{Fam: fam, Seed: seed, Q: -1, Width: 200, End: "natural", Policy: r.PickS("none", "light"), Mode: r.PickS("manual", "manual", "auto"), RefreshUS: r.Pick(200, 1000)}
+	sc.Pop = r.Chance(1, 4)
+	g := &gen{r: r, sc: sc}
+	n := r.Range(2, 5)
+	for i := 0; i < n; i++ {
+		b := simpleBar(int64(r.Pick(5, 100)))
+		b.Filler = r.PickS("nop", "bar")
+		b.Pre = []DecSpec{{Kind: "sync", Vary: r.Range(1, 6), W: r.Pick(0, 0, 4)}}
+		if r.Bool() {
+			b.App = []DecSpec{{Kind: "sync", Vary: r.Range(1, 6), C: r.Intn(4)}}
+		}
+		sc.Bars = append(sc.Bars, b)
+	}
+	step := func() Op {
+		if sc.Mode == "manual" {
+			return Op{K: "rw"}
+		}
+		return Op{K: "waitcycles", N: 1}
+	}
+	ops := []Op{step()}
+	leavers := r.Perm(n)[:r.Range(1, n-1)]
+	for _, li := range leavers {
+		if !sc.Pop {
+			if r.Bool() {
+				sc.Bars[li].Rm = true
+			} else {
+				sc.Bars[li].Finish = "abortdrop"
+			}
+		}
+		ops = append(ops, g.finishOp(li, sc.Bars[li])...)
+		// first terminal frame, the frame it leaves with (one more in pop mode), sometimes one more
+		for x := 0; x < r.Pick(1, 2, 2, 3, 3, 4); x++ {
+			ops = append(ops, step())
+		}
+		nb := simpleBar(int64(r.Pick(5, 100)))
+		nb.Filler = "nop"
+		nb.AddBy = 0
+		if r.Chance(1, 4) {
+			nb.App = []DecSpec{{Kind: "plain", Vary: 2}}
+		}
+		sc.Bars = append(sc.Bars, nb)
+		ops = append(ops, Op{K: "add", B: len(sc.Bars) - 1}, step(), step())
+	}
+	ops = append(ops, step())
 	sc.Clients = [][]Op{ops}
 	if sc.Mode == "manual" {
 		sc.FinalRefr = 3
